@@ -520,7 +520,7 @@ def _fix_arr_shown(case):
 class C12(Property):
     id = "C12"
     title = "a rendered form, submitted unchanged, posts the element's own flat pairs"
-    proof_module = "Proofs.C12"
+    proof_module = "Proofs.C12FormExamples"
     theorems = [
         "Flatland.C12.Proofs.flatName_spec",
         "Flatland.C12.Proofs.flatName_child",
@@ -539,21 +539,57 @@ class C12(Property):
         "Flatland.C12.Proofs.fresh_enabled",
         "Flatland.C12.Proofs.fresh_input_posts",
         "Flatland.C12.Proofs.C12_full_fails",
+        # whole form (Flatland/C12/Form.lean, Proofs/C12Form.lean)
+        "Flatland.C12.Proofs.select_carries_name",
+        "Flatland.C12.Proofs.scalar_posts",
+        "Flatland.C12.Proofs.array_posts",
+        "Flatland.C12.Proofs.form_roundtrip",
+        "Flatland.C12.Proofs.form_roundtrip_total",
+        "Flatland.C12.Proofs.form_roundtrip_fresh",
+        "Flatland.C12.Proofs.flatName_eq_joinSep",
+        "Flatland.C12.Proofs.formPairs_flatten",
+        "Flatland.C12.Proofs.form_posts_flatten",
+        "Flatland.C12.Proofs.posted_keys_are_paths",
+        "Flatland.C12.Proofs.form_roundtrip_generator",
+        "Flatland.C12.Proofs.form_roundtrip_generator_total",
+        "Flatland.C12.Proofs.form_roundtrip_fresh_generator",
+        "Flatland.C12.Proofs.prepareTag_of_renders",
+        "Flatland.C12.Proofs.natRepr_eq_slotName",
+        "Flatland.C12.Proofs.renderForm_binds",
+        "Flatland.C12.Proofs.exForm_ok",
+        "Flatland.C12.Proofs.exForm_posts",
+        "Flatland.C12.Proofs.exForm_posts_generator",
     ]
     generated_obligations = []
     level_text = "proof"
     level_note = ("partial.  PROVED (model of the transforms + browser rule): text-like input / button / textarea carry (flat name, u) "
                   "[textarea: minus one leading LF, KF-C12-f]; checkbox/radio with a literal (scalar, Boolean, Array-of-String binds), "
                   "Boolean checkbox without literal, <option value=lit> selected iff match (any bind kind) and what it posts inside a "
-                  "named select; label for = control id for <input> controls.  EXCLUDED BY FINDINGS: password/file/image "
-                  "(KF-C12-a, refuted by C12_full_fails), options without value= (KF-C12-b/e), JoinedString binds (KF-C12-d).  ORACLE/CORRESPONDENCE ONLY: that the <select> itself carries the flat name, "
-                  "label for = id for textarea/button controls, MultiValue binds, the whole-form round trip through "
-                  "from_flat/flatten (C01's functions)")
+                  "named select; the <select> itself carries the flat name (select_carries_name); label for = control id for <input> "
+                  "controls.  WHOLE FORM (theorem + oracle): form_roundtrip / form_roundtrip_total / form_roundtrip_generator(_total) "
+                  "(the last two through prepareTag, the way the runner makes the calls) -- for every element tree "
+                  "(Dict / List / scalar / Boolean / Array or MultiValue of strings / JoinedString) and every control group form "
+                  "mode renders per leaf (text-like input | textarea | button | radio group | select+options; Boolean checkbox; "
+                  "one checkbox or one option of a <select multiple> per Array member; author attributes such as a stale "
+                  "checked=/selected= allowed), the pairs a browser submits are exactly, in document order, (name, u) per scalar, "
+                  "(name, true) per Boolean whose text is its true value and nothing otherwise, one pair per Array member; "
+                  "formPairs_flatten: these plus the pairs of the unchecked boxes are a permutation of flatten() of the flat model "
+                  "(C01/C07's function) for the same tree, names = separator-join of the path (flatName_eq_joinSep, "
+                  "posted_keys_are_paths).  Hypotheses = decidable `formOk`: non-empty flat names; no password/file/image "
+                  "(KF-C12-a, refuted by C12_full_fails); options carry value= (KF-C12-b/e, by construction); a JoinedString only as "
+                  "a text-like input (KF-C12-d); no textarea for a text starting with LF (KF-C12-f); a radio group / select offers "
+                  "the element's text exactly once; Array members are values of their member schema; types read alike by "
+                  "str.lower and a browser.  ORACLE/CORRESPONDENCE ONLY: label for = id for textarea/button controls; that "
+                  "from_flat of the posted pairs rebuilds the element (C01's function on the real code)")
     technique = ("symbolic evaluation of the transform pipeline under Enabled/Disabled contexts + frame lemmas; browser "
                  "successful-control rule as a function; order-independence of the rule under attribute sorting")
     trusted_base = [
         "the browser's successful-control rule is written twice (Lean `submitted`, Python `posted_of`) and compared on every render",
-        "from_flat/flatten (closing the loop with C01) are exercised on the real code by the oracle only",
+        "the whole-form theorem speaks about the flat model's flatten (Flatland/Flat.lean, the subject of C01/C07); on the real "
+        "code the oracle states the same clause directly (form-pairs, form-flatten) and closes the loop through from_flat",
+        "the form theorems make every tag call on one generator (form_roundtrip_generator: through prepareTag, as the runner "
+        "does); the runner threads the generator from call to call, and prepareTag_of_renders shows each call of a form "
+        "hands back the context it was given (default settings: no tabindex counter)",
     ]
     assumptions = [
         "one whole-Array bind per case at most (its repr-style display text is an input of the model)",
@@ -666,6 +702,38 @@ class C12(Property):
         cases.append(one("x", [rd([1], "input", [["type", S("checkbox")], ["value", S("q")]], "check", lit="q"),
                                rd([1], "input", [["type", S("text")]], "value")],
                          extra_fields=[{"t": "array", "flavour": "multi", "name": "m", "strip": True, "members": ["p", "q"]}]))
+        # the non-vacuity form of the whole-form theorem (Proofs/C12FormExamples.lean `exForm`): every leaf kind and
+        # every control group of form mode, stale checked= / selected= on some of them.  Lean proves that a browser
+        # posts f_a, f_b, f_l_0_x, f_l_0_b, f_l_1_x, f_arr (2x), f_m (2x), f_s, f_k, f_j for it (`exForm_posts_generator`)
+        yes = lambda u: {"t": "bool", "name": "b", "true": "yes", "u": u}
+        row = lambda x, b: {"t": "dict", "name": None, "fields": [{"t": "leaf", "name": "x", "py": "str", "u": x}, yes(b)]}
+        ex_tree = {"t": "dict", "name": "f", "fields": [
+            {"t": "leaf", "name": "a", "py": "str", "u": "hello"},
+            {"t": "bool", "name": "b", "true": "1", "u": "1"},
+            {"t": "bool", "name": "c", "true": "1", "u": ""},
+            {"t": "list", "name": "l", "members": [row("1 & <2>", "yes"), row("2", "")], "template": row("", "")},
+            {"t": "array", "flavour": "array", "name": "arr", "strip": True, "members": ["p", "q r"]},
+            {"t": "array", "flavour": "array", "name": "m", "strip": False, "members": [" p", " p"]},
+            {"t": "leaf", "name": "s", "py": "str", "u": "v1"},
+            {"t": "leaf", "name": "k", "py": "str", "u": "go"},
+            {"t": "array", "flavour": "joined", "name": "j", "strip": True, "members": ["a", "b"]}]}
+        stale = ["checked", S("checked")]
+        box = lambda sel, *extra: rd(sel, "input", [["type", S("checkbox")]] + list(extra), "check", lit=None)
+        chk = lambda sel, ty, lit, *extra: rd(sel, "input", [["type", S(ty)], ["value", S(lit)]] + list(extra), "check", lit=lit)
+        opt = lambda sel, within, lit, *extra: rd(sel, "option", [["value", S(lit)]] + list(extra), "option", within=within, lit=lit)
+        ex_renders = [
+            rd([0], "input", [["type", S("text")]], "value"),
+            box([1], stale), box([2], stale),
+            rd([3, 0, 0], "textarea", [], "value"), box([3, 0, 1]),
+            chk([3, 1, 0], "radio", "9", stale), chk([3, 1, 0], "radio", "2"), chk([3, 1, 0], "radio", "x", stale),
+            box([3, 1, 1]),
+            chk([4], "checkbox", "p"), chk([4], "checkbox", "q r", stale),
+            rd([5], "select", [["multiple", S("multiple")]], "select"), opt([5], 11, " p"), opt([5], 11, " p"),
+            rd([6], "select", [], "select"), opt([6], 14, "v1"), opt([6], 14, "v2", ["selected", S("selected")]),
+            rd([7], "button", [], "value"),
+            rd([8], "input", [["type", S("hidden")]], "value")]
+        cases.append({"markup": "xhtml", "settings": [], "form_mode": True, "tree": ex_tree,
+                      "renders": [dict(r, form=True) for r in ex_renders]})
         return [_fix_arr_shown(c) for c in cases]
 
     def generate(self, rng, n, tier):
@@ -760,6 +828,26 @@ class C12(Property):
                 if res.get("for") != ctl.get("id"):
                     fails.append({"clause": "label-targets-control", "render": i, "expected": ctl.get("id"), "observed": res.get("for"),
                                   "markup": [ctl["out"], res["out"]], "pair": r["pair"]})
+        if case.get("form_mode") and not any(res["err"] or res["parsed"] is None for res in results):
+            # the whole-form theorem (Proofs/C12Form.lean form_roundtrip), stated on the real elements: in document order
+            # (name, u) per scalar / JoinedString, (name, true) per Boolean showing its true text and nothing otherwise,
+            # one pair per Array member; with the pairs of the unchecked boxes that is flatten() as a multiset
+            import flatland
+            own, unchecked = [], []
+            for sel, node in leaves(case["tree"]):
+                el, _ = navigate(root, case["tree"], sel)
+                if isinstance(el, flatland.Boolean):
+                    (own if el.u == el.true else unchecked).append([el.flattened_name(), el.u])
+                elif isinstance(el, flatland.Array) and not isinstance(el, flatland.JoinedString):
+                    own.extend([m.flattened_name(), m.u] for m in el)
+                else:
+                    own.append([el.flattened_name(), el.u])
+            got_pairs = [list(p) for p in posted_pairs]
+            if got_pairs != own:
+                fails.append({"clause": "form-pairs", "expected": own, "observed": got_pairs})
+            flat = sorted([k, v] for k, v in root.flatten())
+            if sorted(own + unchecked) != flat:
+                fails.append({"clause": "form-flatten", "expected": flat, "observed": sorted(own + unchecked)})
         if case.get("form_mode"):
             # closing the loop with C01: what the browser posts rebuilds the element's own flat pairs
             # (relative to from_flat(flatten()), so that C01's pruning findings do not leak into this check)
